@@ -2161,6 +2161,21 @@ def m_stdcell_take(I, st, fn, ce, args, line, depth, dest_ty, may_unwind):
     return None
 
 
+def m_int_arith(kind):
+    """saturating_/wrapping_/checked_ add and sub on literal integers (counters bumped defensively)"""
+    def f(I, st, fn, ce, args, line, depth, dest_ty, may_unwind):
+        a, b = args[0], args[1]
+        if not all(x[0] == "const" and isinstance(x[1], int) and not isinstance(x[1], bool) for x in (a, b)):
+            return [("ret", I.fresh_op(st, "arith", dest_ty, tag=("arith", kind, a, b)), st)]     # cannot unwind either way
+        r = a[1] + b[1] if kind.endswith("add") else a[1] - b[1]
+        if kind.startswith("saturating"):
+            r = max(r, 0)
+        if kind.startswith("checked"):
+            return [("ret", _opt(1, [Const(r)]) if r >= 0 else _opt(0, []), st)]
+        return [("ret", Const(r), st)]
+    return f
+
+
 def m_panicking(I, st, fn, ce, args, line, depth, dest_ty, may_unwind):
     ev = I.emit(st, {"k": "PANICKING"}, fn, line)
     rv = I.fresh_op(st, "panicking", dest_ty, tag=("panicking", ev["i"]))
@@ -2247,6 +2262,12 @@ MODELS = {
     "std::cell::Cell::<T>::set": m_stdcell_set,
     "std::cell::Cell::<T>::replace": m_stdcell_replace,
     "std::cell::Cell::<T>::take": m_stdcell_take,
+    "core::num::<impl usize>::saturating_add": m_int_arith("saturating_add"),
+    "core::num::<impl usize>::saturating_sub": m_int_arith("saturating_sub"),
+    "core::num::<impl usize>::wrapping_add": m_int_arith("wrapping_add"),
+    "core::num::<impl usize>::wrapping_sub": m_int_arith("wrapping_sub"),
+    "core::num::<impl usize>::checked_add": m_int_arith("checked_add"),
+    "core::num::<impl usize>::checked_sub": m_int_arith("checked_sub"),
     "std::thread::panicking": m_panicking,
     "<I as std::iter::IntoIterator>::into_iter": m_identity,
     "core::panicking::panic_fmt": m_panic,
